@@ -20,6 +20,18 @@
 (*   body panics          -> exactly one Rollback, no Commit; the caller   *)
 (*                           learns of it: non-nil error or the panic      *)
 (*                                                                         *)
+(* The caller's context (TransactCtx) is a scenario dimension: "live",      *)
+(* "cancelled" / "expired" before the call, or "bodycancel" (the body       *)
+(* cancels it just before it ends).  The statement does not mention the    *)
+(* context, so it changes nothing in what must hold once a transaction has *)
+(* begun: commit iff the body returns nil, else exactly one Rollback.  The  *)
+(* only freedom left to a manager that is handed a dead context is to       *)
+(* refuse BEFORE beginning (action Refuse: non-nil result, no transaction)  *)
+(* or to skip the body - which then has not returned nil - and roll back    *)
+(* (action SkipBody).                                                      *)
+(* What the body sees: with a dead context its context-bound statements    *)
+(* fail without reaching the database driver (why = "ctx").                *)
+(*                                                                         *)
 (* result classes: "nil" | "begin" | "commit" | "fn" | "nonnil" | "learn". *)
 (* `out` is observation only (VIEW core hides it).                         *)
 (***************************************************************************)
@@ -28,20 +40,23 @@ EXTENDS Integers, Sequences, FiniteSets, TLC
 CONSTANTS MaxStmts,   \* statements a body may issue
           MaxCalls,   \* Transact calls per behaviour (on one Conn)
           Apis,       \* entry points offered to the caller
-          Kinds       \* statement kinds the body may issue ("exec", "query")
+          Kinds,      \* statement kinds the body may issue ("exec", "query")
+          Ctxs,       \* context scenarios offered to the context-taking entry points
+          CtxApis     \* the entry points that take a context
 
 VARIABLES phase,      \* "idle" | "begin" | "body" | "end" | "ret"
           tx,         \* "none" | "open" | "committed" | "rolledback" | "commitfailed" | "rollbackfailed"
           nst,        \* statements issued by the running body
           faulted,    \* the last statement failed (the body stops issuing statements)
-          bend,       \* how the body ended: "none" | "nil" | "err" | "panic"
+          bend,       \* how the body ended: "none" | "nil" | "err" | "panic" | "skipped" (never run)
           commits,    \* Commit calls that reached the driver during this call
           rollbacks,  \* Rollback calls that reached the driver during this call
           result,     \* result class of this call ("none" while running)
           ncalls,
+          ctx,        \* context scenario of the running call
           out
 
-core == <<phase, tx, nst, faulted, bend, commits, rollbacks, result, ncalls>>
+core == <<phase, tx, nst, faulted, bend, commits, rollbacks, result, ncalls, ctx>>
 vars == <<core, out>>
 
 Phases  == {"idle", "begin", "body", "end", "ret"}
@@ -51,30 +66,36 @@ Results == {"none", "nil", "begin", "commit", "fn", "nonnil", "learn"}
 
 TypeOK ==
   /\ phase \in Phases /\ tx \in TxSt /\ nst \in 0..MaxStmts /\ faulted \in BOOLEAN
-  /\ bend \in Ends \cup {"none"} /\ commits \in 0..2 /\ rollbacks \in 0..2
+  /\ bend \in Ends \cup {"none", "skipped"} /\ commits \in 0..2 /\ rollbacks \in 0..2
   /\ result \in Results /\ ncalls \in 0..MaxCalls
+  /\ ctx \in {"live", "cancelled", "expired", "bodycancel"}
 
 Init ==
   /\ phase = "idle" /\ tx = "none" /\ nst = 0 /\ faulted = FALSE /\ bend = "none"
-  /\ commits = 0 /\ rollbacks = 0 /\ result = "none" /\ ncalls = 0
+  /\ commits = 0 /\ rollbacks = 0 /\ result = "none" /\ ncalls = 0 /\ ctx = "live"
   /\ out = [op |-> "init"]
+
+\* the context is already dead when the call is made (and stays so)
+DeadCtx == ctx \in {"cancelled", "expired"}
 
 (* ------------------------------------------------------------------ caller *)
 
-Call(api) ==
+Call(api, cx) ==
   /\ phase = "idle" /\ ncalls < MaxCalls
+  /\ (api \notin CtxApis => cx = "live")
+  /\ ctx' = cx
   /\ phase' = "begin" /\ ncalls' = ncalls + 1
   /\ tx' = "none" /\ nst' = 0 /\ faulted' = FALSE /\ bend' = "none"
   /\ commits' = 0 /\ rollbacks' = 0 /\ result' = "none"
-  /\ out' = [op |-> "call", api |-> api]
+  /\ out' = [op |-> "call", api |-> api, ctx |-> cx]
 
 \* the call returns (or re-raises): this is where the driver compares
 Return ==
   /\ phase = "ret"
   /\ phase' = "idle"
   /\ out' = [op |-> "return", result |-> result, commits |-> commits, rollbacks |-> rollbacks,
-             begun |-> (tx # "none")]
-  /\ UNCHANGED <<tx, nst, faulted, bend, commits, rollbacks, result, ncalls>>
+             begun |-> (tx # "none"), mayrefuse |-> DeadCtx]
+  /\ UNCHANGED <<tx, nst, faulted, bend, commits, rollbacks, result, ncalls, ctx>>
 
 (* ------------------------------------------------------------------ driver: Begin *)
 
@@ -83,24 +104,40 @@ Begin(ok) ==
   /\ IF ok THEN /\ phase' = "body" /\ tx' = "open" /\ UNCHANGED result
            ELSE /\ phase' = "ret" /\ result' = "begin" /\ UNCHANGED tx
   /\ out' = [op |-> "begin", ok |-> ok]
-  /\ UNCHANGED <<nst, faulted, bend, commits, rollbacks, ncalls>>
+  /\ UNCHANGED <<nst, faulted, bend, commits, rollbacks, ncalls, ctx>>
+
+\* handed a dead context, the manager may decline before anything is begun
+Refuse ==
+  /\ phase = "begin" /\ DeadCtx
+  /\ phase' = "ret" /\ result' = "nonnil"
+  /\ out' = [op |-> "refuse"]
+  /\ UNCHANGED <<tx, nst, faulted, bend, commits, rollbacks, ncalls, ctx>>
 
 (* ------------------------------------------------------------------ the body *)
 
 \* the body issues one more statement through the session; the driver lets it succeed or fail
+\* (under a dead context a context-bound statement cannot succeed and never reaches the driver)
 Stmt(kind, ok) ==
   /\ phase = "body" /\ ~faulted /\ nst < MaxStmts
+  /\ (DeadCtx => ~ok)
   /\ nst' = nst + 1 /\ faulted' = ~ok
-  /\ out' = [op |-> "stmt", kind |-> kind, ok |-> ok]
-  /\ UNCHANGED <<phase, tx, bend, commits, rollbacks, result, ncalls>>
+  /\ out' = [op |-> "stmt", kind |-> kind, ok |-> ok, why |-> IF DeadCtx THEN "ctx" ELSE "driver"]
+  /\ UNCHANGED <<phase, tx, bend, commits, rollbacks, result, ncalls, ctx>>
 
 \* the body ends: returns nil (possibly swallowing a statement error), returns an error
 \* (the failed statement's error if there was one, else its own), or panics
 BodyEnd(e) ==
   /\ phase = "body"
   /\ phase' = "end" /\ bend' = e
-  /\ out' = [op |-> "bodyend", how |-> e]
-  /\ UNCHANGED <<tx, nst, faulted, commits, rollbacks, result, ncalls>>
+  /\ out' = [op |-> "bodyend", how |-> e, cancel |-> (ctx = "bodycancel")]
+  /\ UNCHANGED <<tx, nst, faulted, commits, rollbacks, result, ncalls, ctx>>
+
+\* handed a dead context, the manager may also begin, not run the body at all and roll back
+SkipBody ==
+  /\ phase = "body" /\ DeadCtx /\ nst = 0
+  /\ phase' = "end" /\ bend' = "skipped"
+  /\ out' = [op |-> "skipbody"]
+  /\ UNCHANGED <<tx, nst, faulted, commits, rollbacks, result, ncalls, ctx>>
 
 (* ------------------------------------------------------------------ manager + driver: the end *)
 
@@ -111,25 +148,28 @@ Commit(ok) ==
   /\ result' = IF ok THEN "nil" ELSE "commit"
   /\ phase' = "ret"
   /\ out' = [op |-> "commit", ok |-> ok]
-  /\ UNCHANGED <<nst, faulted, bend, rollbacks, ncalls>>
+  /\ UNCHANGED <<nst, faulted, bend, rollbacks, ncalls, ctx>>
 
 Rollback(ok) ==
-  /\ phase = "end" /\ bend \in {"err", "panic"}
+  /\ phase = "end" /\ bend \in {"err", "panic", "skipped"}
   /\ rollbacks' = rollbacks + 1
   /\ tx' = IF ok THEN "rolledback" ELSE "rollbackfailed"
-  /\ result' = IF bend = "panic" THEN "learn" ELSE IF ok THEN "fn" ELSE "nonnil"
+  /\ result' = IF bend = "panic" THEN "learn" ELSE IF bend = "skipped" THEN "nonnil" ELSE IF ok THEN "fn" ELSE "nonnil"
   /\ phase' = "ret"
   /\ out' = [op |-> "rollback", ok |-> ok]
-  /\ UNCHANGED <<nst, faulted, bend, commits, ncalls>>
+  /\ UNCHANGED <<nst, faulted, bend, commits, ncalls, ctx>>
 
-Next ==
-  \/ \E a \in Apis : Call(a)
+\* everything but Refuse / SkipBody: the steps a behaviour script can prescribe (TxGen.tla)
+Scripted ==
+  \/ \E a \in Apis, cx \in Ctxs : Call(a, cx)
   \/ \E ok \in BOOLEAN : Begin(ok)
   \/ \E k \in Kinds, ok \in BOOLEAN : Stmt(k, ok)
   \/ \E e \in Ends : BodyEnd(e)
   \/ \E ok \in BOOLEAN : Commit(ok)
   \/ \E ok \in BOOLEAN : Rollback(ok)
   \/ Return
+
+Next == Scripted \/ Refuse \/ SkipBody
 
 Spec == Init /\ [][Next]_vars
 
@@ -154,6 +194,11 @@ CommitIffNil ==
 OneEnding  == commits + rollbacks <= 1
 NoDangling == Returned => tx # "open"
 NoTxNoEnd  == tx = "none" => commits = 0 /\ rollbacks = 0
+
+\* whatever the context: once a transaction has begun, a call that does not report success has
+\* rolled it back (or failed to commit it); in particular a begun transaction whose body never ran
+\* is not abandoned
+BegunIsEnded == Returned /\ tx # "none" => commits + rollbacks = 1
 
 \* a panic or an error of the body is never turned into success
 FailureIsReported == Returned /\ bend \in {"err", "panic"} => result \in {"fn", "nonnil", "learn"}
